@@ -1867,6 +1867,11 @@ func signingParamsForPublicKey(pub interface{}, requestedSigAlgo SignatureAlgori
 				err = errors.New("x509: cannot sign with hash function requested")
 				return
 			}
+			if requestedSigAlgo == MD5WithRSA {
+				// checkSignature refuses MD5WithRSA (InsecureAlgorithmError): do not issue what cannot be verified
+				err = errors.New("x509: signing with MD5 is not supported")
+				return
+			}
 			if requestedSigAlgo.isRSAPSS() {
 				sigAlgo.Parameters = rsaPSSParameters(hashFunc)
 			}
